@@ -8,6 +8,7 @@
                      the PRE-fix pointwise scan (definitions *_old);
      Module PwNew  : pointwise_matrix, current code: counting pass = fill pass, fuel, wf;
      Module PwSpec : pointwise_matrix, current code = block maximum on row-sorted input;
+     Module Blk    : adapter::block_matrix = dense blocks of A, unblock_matrix round trip;
      Section PowerMethod : structure of one power-method sweep;
      top level     : refutation of the block-maximum specification by the faithful model of the
                      PRE-fix scan pointwise_matrix_old (witnesses were replayed on the implementation
@@ -2623,6 +2624,867 @@ Print Assumptions pw_block_row_spec.
 Print Assumptions pointwise_matrix_spec.
 
 End PwSpec.
+Local Open Scope S_scope.
+
+(* adapter::block_matrix / unblock_matrix: stored blocks = non-empty blocks with the dense values
+   of A (rows sorted without duplicates), unblock o block = A densely, shapes, fuel *)
+Module Blk.
+Local Close Scope S_scope.
+
+(* ================================================================== *)
+(* Part A: structural facts, any Scalar                                 *)
+
+Section BlkAny.
+Context {S : Scalar}.
+Local Notation row := (row S).
+Local Notation crs := (crs S).
+Local Notation tk := (@PwSpec.tk S).
+Local Notation dr := (@PwSpec.dr S).
+
+(* ---------------- arithmetic of block columns ---------------- *)
+
+Lemma blk_div bs J c : J * bs <= c < (J + 1) * bs -> c / bs = J.
+Proof. intro H. symmetry. apply (Nat.div_unique c bs J (c - J * bs)); nia. Qed.
+
+Lemma blk_mod bs J c : J * bs <= c < (J + 1) * bs -> c mod bs = c - J * bs.
+Proof. intro H. symmetry. apply (Nat.mod_unique c bs J (c - J * bs)); nia. Qed.
+
+Lemma div_blk bs c : 0 < bs -> c / bs * bs <= c < (c / bs + 1) * bs.
+Proof.
+  intro H. pose proof (Nat.div_mod c bs ltac:(lia)) as E.
+  pose proof (Nat.mod_upper_bound c bs ltac:(lia)) as U. nia.
+Qed.
+
+Lemma ce_char bs J c : 0 < bs -> Nat.leb ((J + 1) * bs) c = Nat.leb (J + 1) (c / bs).
+Proof. apply PwSpec.leb_div. Qed.
+
+(* ---------------- one row: consumed prefix / rest ---------------- *)
+
+Definition gstep (bs : nat) (vs : list S) (e : nat * S) : list S :=
+  set_nth (fst e mod bs) (snd e) vs.
+Definition gvals (bs ce : nat) (r : row) : list S :=
+  fold_left (gstep bs) (tk ce r) (repeat s0 bs).
+
+Lemma gather_row_char bs ce (r : row) vals :
+  bm_gather_row bs ce r vals = (dr ce r, fold_left (gstep bs) (tk ce r) vals).
+Proof.
+  revert vals; induction r as [|[c v] tl IH]; intro vals; simpl; [reflexivity|].
+  rewrite Nat.ltb_antisym. destruct (Nat.leb ce c); simpl; [reflexivity|]. apply IH.
+Qed.
+
+Lemma gather_char bs ce (js : list row) :
+  bm_gather bs ce js = (map (dr ce) js, map (gvals bs ce) js).
+Proof.
+  unfold bm_gather; cbv zeta. rewrite !map_map.
+  f_equal; apply map_ext; intro r; rewrite gather_row_char; reflexivity.
+Qed.
+
+Lemma tk_dr_app ce (r : row) : tk ce r ++ dr ce r = r.
+Proof.
+  induction r as [|e tl IH]; simpl; [reflexivity|].
+  destruct (Nat.leb ce (fst e)); simpl; [reflexivity|]. rewrite IH. reflexivity.
+Qed.
+
+Lemma tk_lt ce (r : row) : Forall (fun e => fst e < ce) (tk ce r).
+Proof.
+  induction r as [|e tl IH]; simpl; [constructor|].
+  destruct (Nat.leb_spec ce (fst e)); constructor; [lia|exact IH].
+Qed.
+
+Lemma tk_incl ce (r : row) e : In e (tk ce r) -> In e r.
+Proof. intro H. rewrite <- (tk_dr_app ce r). apply in_or_app. left; exact H. Qed.
+
+Lemma dr_incl ce (r : row) e : In e (dr ce r) -> In e r.
+Proof. intro H. rewrite <- (tk_dr_app ce r). apply in_or_app. right; exact H. Qed.
+
+Lemma filter_all {X} (p : X -> bool) (l : list X) :
+  Forall (fun x => p x = true) l -> filter p l = l.
+Proof. induction 1 as [|x l Hx _ IH]; simpl; [reflexivity|]. rewrite Hx, IH. reflexivity. Qed.
+
+(* the rest of a sorted row = its entries right of block column J *)
+Lemma dr_filter_gt bs J (r : row) : 0 < bs -> StronglySorted lec r ->
+  dr ((J + 1) * bs) r = filter (fun e => Nat.ltb J (fst e / bs)) r.
+Proof.
+  intros Hbs Hs. induction Hs as [|e tl Hs IH Hall]; [reflexivity|].
+  simpl. rewrite (ce_char bs J (fst e) Hbs).
+  destruct (Nat.leb_spec (J + 1) (fst e / bs)) as [L|L].
+  - replace (J <? fst e / bs) with true by (symmetry; apply Nat.ltb_lt; lia). f_equal.
+    symmetry. apply filter_all. eapply Forall_impl; [|exact Hall]. intros x Hx.
+    unfold lec in Hx. pose proof (PwSpec.div_mono bs (fst e) (fst x) Hbs Hx).
+    apply Nat.ltb_lt. lia.
+  - replace (J <? fst e / bs) with false by (symmetry; apply Nat.ltb_ge; lia). exact IH.
+Qed.
+
+(* ---------------- bm_min ---------------- *)
+
+Definition qhd_upd (bs : nat) (cur : option nat) (r : row) : option nat :=
+  match r with [] => cur | e :: _ => upd_cur cur (fst e / bs) end.
+Definition head_geq (bs cc : nat) (r : row) : Prop :=
+  match r with [] => True | e :: _ => cc <= fst e / bs end.
+Definition head_isq (bs cc : nat) (r : row) : Prop :=
+  match r with [] => False | e :: _ => fst e / bs = cc end.
+
+Lemma bm_min_eq bs (js : list row) : bm_min bs js = fold_left (qhd_upd bs) js None.
+Proof. reflexivity. Qed.
+
+Lemma min_none bs (js : list row) cur :
+  fold_left (qhd_upd bs) js cur = None -> cur = None /\ Forall (fun r => r = []) js.
+Proof.
+  revert cur; induction js as [|r t IH]; intros cur H; simpl in H; [split; [exact H|constructor]|].
+  apply IH in H. destruct H as [Hc Ht]. destruct r as [|e tl].
+  - split; [exact Hc|constructor; [reflexivity|exact Ht]].
+  - simpl in Hc. destruct cur; discriminate.
+Qed.
+
+Lemma min_some bs (js : list row) cur c0 :
+  fold_left (qhd_upd bs) js cur = Some c0 ->
+  Forall (head_geq bs c0) js /\ PwSpec.cur_ge c0 cur /\ (cur = Some c0 \/ Exists (head_isq bs c0) js).
+Proof.
+  revert cur; induction js as [|r t IH]; intros cur H; simpl in H.
+  - subst cur. split; [constructor|]. split; [simpl; lia|left; reflexivity].
+  - apply IH in H. destruct H as (Ht & Hc & Hd). destruct r as [|e tl].
+    + simpl in Hc, Hd. split; [constructor; [exact I|exact Ht]|]. split; [exact Hc|].
+      destruct Hd as [Hd|Hd]; [left; exact Hd|right; apply Exists_cons_tl; exact Hd].
+    + simpl in Hc, Hd. destruct cur as [c|]; simpl in Hc, Hd.
+      * split; [constructor; [simpl; lia|exact Ht]|]. split; [simpl; lia|].
+        destruct Hd as [Hd|Hd]; [|right; apply Exists_cons_tl; exact Hd].
+        injection Hd as Hd.
+        destruct (Nat.eq_dec c c0) as [->|Hne]; [left; reflexivity|].
+        right. apply Exists_cons_hd. simpl. lia.
+      * split; [constructor; [simpl; lia|exact Ht]|]. split; [exact I|].
+        destruct Hd as [Hd|Hd]; [|right; apply Exists_cons_tl; exact Hd].
+        injection Hd as Hd. right. apply Exists_cons_hd. simpl. exact Hd.
+Qed.
+
+Lemma bm_min_some bs (js : list row) cc :
+  bm_min bs js = Some cc -> Forall (head_geq bs cc) js /\ Exists (head_isq bs cc) js.
+Proof.
+  rewrite bm_min_eq. intro H. apply min_some in H. destruct H as (H1 & _ & [H|H]); [discriminate|].
+  split; assumption.
+Qed.
+
+Lemma bm_min_none bs (js : list row) : bm_min bs js = None -> Forall (fun r => r = []) js.
+Proof. rewrite bm_min_eq. intro H. apply min_none in H. apply H. Qed.
+
+(* ---------------- one iteration of the loop ---------------- *)
+
+Lemma bm_loop_S f bs (js : list row) cc : bm_min bs js = Some cc ->
+  bm_loop (Datatypes.S f) bs js =
+  (cc, map (gvals bs ((cc + 1) * bs)) js) :: bm_loop f bs (map (dr ((cc + 1) * bs)) js).
+Proof. intro H. cbn [bm_loop]. rewrite H, gather_char. reflexivity. Qed.
+
+Lemma bm_loop_None f bs (js : list row) : bm_min bs js = None -> bm_loop f bs js = [].
+Proof. intro H. destruct f; cbn [bm_loop]; [reflexivity|]. rewrite H. reflexivity. Qed.
+
+(* ---------------- fuel ---------------- *)
+
+Lemma min_total_lt bs (js : list row) cc : 0 < bs -> bm_min bs js = Some cc ->
+  PwCopy.total (map (dr ((cc + 1) * bs)) js) < PwCopy.total js.
+Proof.
+  intros Hbs H. apply bm_min_some in H. destruct H as [_ Hex].
+  apply (PwSpec.total_dr_lt bs cc ((cc + 1) * bs) Hbs (fun c => ce_char bs cc c Hbs)).
+  eapply Exists_impl; [|exact Hex]. intros r Hh. destruct r as [|e tl]; [exact Hh|].
+  simpl in Hh. lia.
+Qed.
+
+Theorem bm_loop_fuel_indep bs : 0 < bs -> forall fuel k (js : list row),
+  PwCopy.total js < fuel -> bm_loop (fuel + k) bs js = bm_loop fuel bs js.
+Proof.
+  intro Hbs. induction fuel as [|f IH]; intros k js Ht; [lia|].
+  destruct (bm_min bs js) as [cc|] eqn:E.
+  - change (Datatypes.S f + k) with (Datatypes.S (f + k)).
+    rewrite !(bm_loop_S _ bs js cc E). f_equal. apply IH.
+    pose proof (min_total_lt bs js cc Hbs E). lia.
+  - rewrite !bm_loop_None by exact E. reflexivity.
+Qed.
+
+Theorem bm_block_row_fuel bs (js : list row) k : 0 < bs ->
+  bm_block_row bs js = bm_loop (pw_fuel js + k) bs js.
+Proof.
+  intro Hbs. unfold bm_block_row. symmetry. apply bm_loop_fuel_indep; [exact Hbs|].
+  rewrite PwCopy.pw_fuel_total. lia.
+Qed.
+
+(* ---------------- shape of the stored blocks ---------------- *)
+
+Lemma set_nth_length {X} n (x : X) l : length (set_nth n x l) = length l.
+Proof. revert n; induction l as [|y l IH]; intros [|n]; simpl; try reflexivity. rewrite IH; reflexivity. Qed.
+
+Lemma fold_gstep_length bs (p : row) vals : length (fold_left (gstep bs) p vals) = length vals.
+Proof.
+  revert vals; induction p as [|e p IH]; intro vals; simpl; [reflexivity|].
+  rewrite IH. apply set_nth_length.
+Qed.
+
+Lemma gvals_length bs ce (r : row) : length (gvals bs ce r) = bs.
+Proof. unfold gvals. rewrite fold_gstep_length. apply repeat_length. Qed.
+
+Lemma bm_loop_shape bs fuel : forall (js : list row) c b, In (c, b) (bm_loop fuel bs js) ->
+  length b = length js /\ Forall (fun v => length v = bs) b.
+Proof.
+  induction fuel as [|f IH]; intros js c b H; [contradiction|].
+  destruct (bm_min bs js) as [cc|] eqn:E.
+  - rewrite (bm_loop_S _ bs js cc E) in H. destruct H as [H|H].
+    + injection H as _ <-. split; [apply map_length|].
+      apply Forall_map. apply Forall_forall. intros r _. apply gvals_length.
+    + apply IH in H. rewrite map_length in H. exact H.
+  - rewrite bm_loop_None in H by exact E. contradiction.
+Qed.
+
+Lemma bm_loop_cols bs fuel : forall (js : list row) c b, In (c, b) (bm_loop fuel bs js) ->
+  exists r e, In r js /\ In e r /\ c = fst e / bs.
+Proof.
+  induction fuel as [|f IH]; intros js c b H; [contradiction|].
+  destruct (bm_min bs js) as [cc|] eqn:E.
+  - rewrite (bm_loop_S _ bs js cc E) in H. destruct H as [H|H].
+    + injection H as <- _. apply bm_min_some in E. destruct E as [_ Hex].
+      apply Exists_exists in Hex. destruct Hex as (r & Hr & Hh).
+      destruct r as [|e tl]; [contradiction|]. simpl in Hh.
+      exists (e :: tl), e. split; [exact Hr|]. split; [left; reflexivity|]. symmetry; exact Hh.
+    + apply IH in H. destruct H as (r' & e & Hr' & He & Hc).
+      apply in_map_iff in Hr'. destruct Hr' as (r & <- & Hr).
+      exists r, e. split; [exact Hr|]. split; [eapply dr_incl; exact He|exact Hc].
+  - rewrite bm_loop_None in H by exact E. contradiction.
+Qed.
+
+Lemma groups_lengths {X} np bs (l : list X) :
+  np * bs <= length l -> Forall (fun g => length g = bs) (groups np bs l).
+Proof.
+  revert l; induction np as [|k IH]; intros l H; simpl; constructor; simpl in H.
+  - apply firstn_length_le. lia.
+  - apply IH. rewrite skipn_length. lia.
+Qed.
+
+Lemma block_matrix_some_inv (A : crs) bs B : block_matrix A bs = Some B ->
+  bs <> 0 /\ nrows A / bs * bs = nrows A /\ ncols A / bs * bs = ncols A /\
+  B = mkBcrs (ncols A / bs) (map (bm_block_row bs) (groups (nrows A / bs) bs (rows A))).
+Proof.
+  unfold block_matrix. destruct (Nat.eqb_spec bs 0) as [|Hbs]; [discriminate|].
+  destruct (Nat.eqb_spec (nrows A / bs * bs) (nrows A)) as [Hn|]; [|discriminate].
+  destruct (Nat.eqb_spec (ncols A / bs * bs) (ncols A)) as [Hm|]; [|discriminate].
+  simpl. intro H. injection H as <-. auto.
+Qed.
+
+(* B3: the block matrix is well formed *)
+Theorem block_matrix_wf (A : crs) bs B :
+  wf A = true -> block_matrix A bs = Some B ->
+  length (brows B) = nrows A / bs /\ bncols B = ncols A / bs /\
+  Forall (Forall (fun cb => fst cb < bncols B /\ length (snd cb) = bs /\
+                            Forall (fun v => length v = bs) (snd cb))) (brows B).
+Proof.
+  intros Hwf H. apply block_matrix_some_inv in H. destruct H as (Hbs & Hn & Hm & ->). simpl.
+  split; [rewrite map_length; apply PwCopy.groups_length|]. split; [reflexivity|].
+  apply Forall_map.
+  pose proof (PwCopy.groups_Forall _ (nrows A / bs) bs (rows A) (PwCopy.wf_rows_lt A Hwf)) as HG.
+  pose proof (groups_lengths (nrows A / bs) bs (rows A)) as HL.
+  rewrite Forall_forall in *. intros js Hjs. specialize (HG js Hjs).
+  assert (HL0 : nrows A / bs * bs <= length (rows A)) by (rewrite Hn; apply le_n).
+  specialize (HL HL0 js Hjs).
+  apply Forall_forall. intros [c b] Hcb. unfold bm_block_row in Hcb. simpl.
+  pose proof (bm_loop_shape _ _ _ _ _ Hcb) as [S1 S2].
+  apply bm_loop_cols in Hcb. destruct Hcb as (r & e & Hr & He & ->).
+  split; [|split; [lia|exact S2]].
+  rewrite Forall_forall in HG. specialize (HG r Hr). rewrite Forall_forall in HG. specialize (HG e He).
+  unfold PwCopy.ent_lt in HG. apply Nat.div_lt_upper_bound; [exact Hbs|]. lia.
+Qed.
+
+End BlkAny.
+
+(* ================================================================== *)
+(* Part B: values (commutative ring for rget)                           *)
+
+Section BlkRing.
+Context {S : Scalar}.
+Local Notation row := (row S).
+Local Notation crs := (crs S).
+Local Notation tk := (@PwSpec.tk S).
+Local Notation dr := (@PwSpec.dr S).
+Hypothesis Srt : Sring S.
+Add Ring SRingB : Srt.
+
+(* ---------------- set_nth on a tabulated vector ---------------- *)
+
+Lemma set_nth_map_seq (f : nat -> S) k v n : forall a,
+  set_nth k v (map f (seq a n)) = map (fun l => if Nat.eqb l (a + k) then v else f l) (seq a n).
+Proof.
+  revert k; induction n as [|n IH]; intros k a; [destruct k; reflexivity|].
+  destruct k as [|k]; simpl.
+  - replace (a =? a + 0) with true by (symmetry; apply Nat.eqb_eq; lia). f_equal.
+    apply map_ext_in. intros l Hl. apply in_seq in Hl.
+    replace (l =? a + 0) with false by (symmetry; apply Nat.eqb_neq; lia). reflexivity.
+  - replace (a =? a + Datatypes.S k) with false by (symmetry; apply Nat.eqb_neq; lia). f_equal.
+    rewrite IH. apply map_ext. intro l.
+    replace (Datatypes.S a + k) with (a + Datatypes.S k) by lia. reflexivity.
+Qed.
+
+Lemma repeat_map_seq (x : S) n : forall a, repeat x n = map (fun _ => x) (seq a n).
+Proof. induction n as [|n IH]; intro a; simpl; [reflexivity|]. rewrite <- IH. reflexivity. Qed.
+
+(* the vector after the consumed prefix p, as a function of the position *)
+Fixpoint G (bs : nat) (p : row) (f : nat -> S) (l : nat) : S :=
+  match p with
+  | [] => f l
+  | e :: t => G bs t (fun l' => if Nat.eqb l' (fst e mod bs) then snd e else f l') l
+  end.
+
+Lemma fold_G bs (p : row) : forall f,
+  fold_left (gstep bs) p (map f (seq 0 bs)) = map (G bs p f) (seq 0 bs).
+Proof.
+  induction p as [|e p IH]; intro f; simpl; [reflexivity|].
+  unfold gstep at 2. rewrite set_nth_map_seq. exact (IH _).
+Qed.
+
+Definition inblk (bs J : nat) (e : nat * S) : Prop := J * bs <= fst e < (J + 1) * bs.
+
+Lemma G_spec bs J l : l < bs -> forall (p : row) f,
+  NoDup (map fst p) -> Forall (inblk bs J) p ->
+  (~ In (J * bs + l) (map fst p) -> G bs p f l = f l) /\
+  (In (J * bs + l) (map fst p) -> G bs p f l = rget p (J * bs + l)).
+Proof.
+  intro Hl. induction p as [|[c v] p IH]; intros f Hnd Hb.
+  - split; [reflexivity|intros []].
+  - inversion Hnd as [|? ? Hnin Hnd']; subst. inversion Hb as [|? ? Hc Hb']; subst.
+    unfold inblk in Hc; simpl in Hc.
+    pose proof (blk_mod bs J c Hc) as Hm.
+    specialize (IH (fun l' => if Nat.eqb l' (c mod bs) then v else f l') Hnd' Hb').
+    destruct IH as [IH1 IH2]. simpl G. simpl map. rewrite (rget_cons Srt). simpl fst; simpl snd.
+    destruct (Nat.eqb_spec c (J * bs + l)) as [E|E].
+    + subst c. split; [intro H; exfalso; apply H; left; reflexivity|]. intros _.
+      rewrite IH1 by exact Hnin.
+      replace (l =? (J * bs + l) mod bs) with true by (symmetry; apply Nat.eqb_eq; lia).
+      rewrite (rget_notin Srt) by exact Hnin. ring.
+    + split.
+      * intro H. rewrite IH1 by (intro H'; apply H; right; exact H').
+        replace (l =? c mod bs) with false by (symmetry; apply Nat.eqb_neq; lia). reflexivity.
+      * intros [H|H]; [contradiction|]. rewrite IH2 by exact H. ring.
+Qed.
+
+Lemma G_zero bs J l (p : row) : l < bs -> NoDup (map fst p) -> Forall (inblk bs J) p ->
+  G bs p (fun _ => s0) l = rget p (J * bs + l).
+Proof.
+  intros Hl Hnd Hb. destruct (G_spec bs J l Hl p (fun _ => s0) Hnd Hb) as [H1 H2].
+  destruct (in_dec Nat.eq_dec (J * bs + l) (map fst p)) as [Hin|Hnin].
+  - apply H2, Hin.
+  - rewrite H1 by exact Hnin. symmetry. apply (rget_notin Srt). exact Hnin.
+Qed.
+
+(* ---------------- sortedness ---------------- *)
+
+Lemma NoDup_app_r' {X} (l1 l2 : list X) : NoDup (l1 ++ l2) -> NoDup l2.
+Proof. induction l1 as [|x l1 IH]; simpl; intro H; [exact H|]. inversion H; subst. apply IH; assumption. Qed.
+
+Lemma NoDup_app_l' {X} (l1 l2 : list X) : NoDup (l1 ++ l2) -> NoDup l1.
+Proof.
+  induction l1 as [|x l1 IH]; simpl; intro H; [constructor|]. inversion H as [|? ? Hn Hd]; subst.
+  constructor; [|apply IH; exact Hd]. intro Hin. apply Hn. apply in_or_app. left; exact Hin.
+Qed.
+
+Definition rok (r : row) : Prop := StronglySorted lec r /\ NoDup (map fst r).
+
+Lemma sorted_strict_rok (r : row) : sorted_strict r = true -> rok r.
+Proof.
+  intro H. split; [|apply Rmerge.sorted_strict_NoDup; exact H].
+  apply Rmerge.sorted_strict_StronglySorted in H.
+  induction H as [|e tl Hs IH Hall]; constructor; [exact IH|].
+  eapply Forall_impl; [|exact Hall]. intros x Hx. unfold lec. simpl in Hx. lia.
+Qed.
+
+Lemma dr_rok bs J (r : row) : 0 < bs -> rok r -> rok (dr ((J + 1) * bs) r).
+Proof.
+  intros Hbs [Hs Hnd]. split.
+  - apply (PwSpec.dr_SS bs J _ Hbs (fun c => ce_char bs J c Hbs)). exact Hs.
+  - rewrite <- (tk_dr_app ((J + 1) * bs) r), map_app in Hnd.
+    apply NoDup_app_r' in Hnd. exact Hnd.
+Qed.
+
+(* ---------------- the per-row lemma ---------------- *)
+
+Lemma rget_dr_zero bs J (r : row) l : 0 < bs -> l < bs -> StronglySorted lec r ->
+  rget (dr ((J + 1) * bs) r) (J * bs + l) = s0.
+Proof.
+  intros Hbs Hl Hs. apply (rget_notin Srt). intro Hin. apply in_map_iff in Hin.
+  destruct Hin as (e & He & Hin).
+  pose proof (PwSpec.dr_ge bs J _ Hbs (fun c => ce_char bs J c Hbs) r Hs) as Hge.
+  rewrite Forall_forall in Hge. specialize (Hge e Hin). rewrite He in Hge.
+  rewrite (blk_div bs J (J * bs + l)) in Hge by lia. lia.
+Qed.
+
+Lemma rget_tk_zero ce (r : row) j : ce <= j -> rget (tk ce r) j = s0.
+Proof.
+  intro Hj. apply (rget_notin Srt). intro Hin. apply in_map_iff in Hin.
+  destruct Hin as (e & He & Hin). pose proof (tk_lt ce r) as Hlt.
+  rewrite Forall_forall in Hlt. specialize (Hlt e Hin). lia.
+Qed.
+
+Lemma rget_split ce (r : row) j : rget r j = sadd (rget (tk ce r) j) (rget (dr ce r) j).
+Proof. rewrite <- (rget_app Srt), tk_dr_app. reflexivity. Qed.
+
+Theorem gvals_spec bs J (r : row) : 0 < bs -> rok r -> Forall (fun e => J <= fst e / bs) r ->
+  gvals bs ((J + 1) * bs) r = map (fun l => rget r (J * bs + l)) (seq 0 bs).
+Proof.
+  intros Hbs [Hs Hnd] HJ. unfold gvals. rewrite (repeat_map_seq s0 bs 0), fold_G.
+  apply map_ext_in. intros l Hl. apply in_seq in Hl.
+  set (ce := (J + 1) * bs).
+  rewrite (G_zero bs J l (tk ce r)); [| lia | |].
+  - rewrite (rget_split ce r (J * bs + l)). unfold ce.
+    rewrite (rget_dr_zero bs J r l Hbs ltac:(lia) Hs). ring.
+  - rewrite <- (tk_dr_app ce r), map_app in Hnd. apply NoDup_app_l' in Hnd. exact Hnd.
+  - pose proof (tk_lt ce r) as Hlt. rewrite Forall_forall in *. intros e He.
+    specialize (Hlt e He). specialize (HJ e (tk_incl ce r e He)).
+    unfold inblk. pose proof (div_blk bs (fst e) Hbs). unfold ce in Hlt. nia.
+Qed.
+
+(* the statement in terms of bm_gather_row *)
+Corollary bm_gather_row_spec bs J (r : row) :
+  0 < bs -> sorted_strict r = true -> Forall (fun e => J <= fst e / bs) r ->
+  bm_gather_row bs ((J + 1) * bs) r (repeat s0 bs) =
+  (dr ((J + 1) * bs) r, map (fun l => rget r (J * bs + l)) (seq 0 bs)).
+Proof.
+  intros Hbs Hs HJ. rewrite gather_row_char. f_equal.
+  apply (gvals_spec bs J r Hbs (sorted_strict_rok r Hs) HJ).
+Qed.
+
+Corollary bm_gather_row_spec_filter bs J (r : row) :
+  0 < bs -> sorted_strict r = true -> Forall (fun e => J <= fst e / bs) r ->
+  bm_gather_row bs ((J + 1) * bs) r (repeat s0 bs) =
+  (filter (fun e => Nat.ltb J (fst e / bs)) r, map (fun l => rget r (J * bs + l)) (seq 0 bs)).
+Proof.
+  intros Hbs Hs HJ. rewrite (bm_gather_row_spec bs J r Hbs Hs HJ). f_equal.
+  apply dr_filter_gt; [exact Hbs|]. apply sorted_strict_rok, Hs.
+Qed.
+
+
+(* ---------------- block_has / block_dense under dr ---------------- *)
+
+Lemma block_has_false bs J (js : list row) :
+  Forall (Forall (fun e => fst e / bs <> J)) js -> block_has bs J js = false.
+Proof.
+  intro H. unfold block_has. induction H as [|r t Hr _ IH]; simpl; [reflexivity|].
+  rewrite IH, orb_false_r. induction Hr as [|e tl He _ IHr]; simpl; [reflexivity|].
+  rewrite IHr, orb_false_r. apply Nat.eqb_neq. exact He.
+Qed.
+
+Lemma block_has_true bs J (js : list row) r e :
+  In r js -> In e r -> fst e / bs = J -> block_has bs J js = true.
+Proof.
+  intros Hr He Hq. unfold block_has. apply existsb_exists. exists r. split; [exact Hr|].
+  apply existsb_exists. exists e. split; [exact He|]. apply Nat.eqb_eq. exact Hq.
+Qed.
+
+Lemma block_has_false_inv bs J (js : list row) r e :
+  block_has bs J js = false -> In r js -> In e r -> fst e / bs <> J.
+Proof.
+  intros H Hr He Hq. rewrite (block_has_true bs J js r e Hr He Hq) in H. discriminate.
+Qed.
+
+Lemma existsb_dr bs J J' (r : row) : 0 < bs -> J < J' ->
+  existsb (fun e => Nat.eqb (fst e / bs) J') (dr ((J + 1) * bs) r) =
+  existsb (fun e => Nat.eqb (fst e / bs) J') r.
+Proof.
+  intros Hbs HJ. induction r as [|e tl IH]; [reflexivity|].
+  change (dr ((J + 1) * bs) (e :: tl))
+    with (if Nat.leb ((J + 1) * bs) (fst e) then e :: tl else dr ((J + 1) * bs) tl).
+  rewrite (ce_char bs J (fst e) Hbs).
+  destruct (Nat.leb_spec (J + 1) (fst e / bs)) as [L|L]; [reflexivity|].
+  rewrite IH. simpl.
+  replace (fst e / bs =? J') with false by (symmetry; apply Nat.eqb_neq; lia). reflexivity.
+Qed.
+
+Lemma block_has_dr bs J J' (js : list row) : 0 < bs -> J < J' ->
+  block_has bs J' (map (dr ((J + 1) * bs)) js) = block_has bs J' js.
+Proof.
+  intros Hbs HJ. unfold block_has. induction js as [|r t IH]; [reflexivity|].
+  simpl. rewrite IH, (existsb_dr bs J J' r Hbs HJ). reflexivity.
+Qed.
+
+Lemma block_dense_dr bs J J' (js : list row) : J < J' ->
+  block_dense bs J' (map (dr ((J + 1) * bs)) js) = block_dense bs J' js.
+Proof.
+  intro HJ. unfold block_dense. rewrite map_map. apply map_ext. intro r.
+  apply map_ext. intro l. rewrite (rget_split ((J + 1) * bs) r (J' * bs + l)).
+  rewrite rget_tk_zero by nia. ring.
+Qed.
+
+Lemma block_dense_gvals bs J (js : list row) : 0 < bs ->
+  Forall rok js -> Forall (Forall (fun e => J <= fst e / bs)) js ->
+  map (gvals bs ((J + 1) * bs)) js = block_dense bs J js.
+Proof.
+  intros Hbs Hs HJ. unfold block_dense. apply map_ext_in. intros r Hr.
+  rewrite Forall_forall in Hs, HJ. apply gvals_spec; [exact Hbs|apply Hs, Hr|apply HJ, Hr].
+Qed.
+
+(* ---------------- the specification from a block column on ---------------- *)
+
+Definition bcell bs (js : list row) (J : nat) : list (nat * @blk S) :=
+  if block_has bs J js then [(J, block_dense bs J js)] else [].
+Definition bfrom bs J0 n (js : list row) : list (nat * @blk S) := flat_map (bcell bs js) (seq J0 n).
+
+Lemma block_spec_row_from bs mp (js : list row) : block_spec_row bs mp js = bfrom bs 0 mp js.
+Proof. reflexivity. Qed.
+
+Lemma bfrom_app bs J0 a b (js : list row) :
+  bfrom bs J0 (a + b) js = bfrom bs J0 a js ++ bfrom bs (J0 + a) b js.
+Proof. unfold bfrom. rewrite seq_app, flat_map_app. reflexivity. Qed.
+
+Lemma bfrom_S bs J0 n (js : list row) :
+  bfrom bs J0 (Datatypes.S n) js = bcell bs js J0 ++ bfrom bs (Datatypes.S J0) n js.
+Proof. reflexivity. Qed.
+
+Lemma bfrom_empty bs n (js : list row) : forall J0,
+  (forall J, J0 <= J < J0 + n -> block_has bs J js = false) -> bfrom bs J0 n js = [].
+Proof.
+  induction n as [|n IH]; intros J0 H; [reflexivity|].
+  rewrite bfrom_S. unfold bcell at 1. rewrite H by lia. simpl.
+  apply IH. intros J HJ. apply H. lia.
+Qed.
+
+Lemma bfrom_ext bs n (js js' : list row) : forall J0,
+  (forall J, J0 <= J < J0 + n -> bcell bs js J = bcell bs js' J) ->
+  bfrom bs J0 n js = bfrom bs J0 n js'.
+Proof.
+  induction n as [|n IH]; intros J0 H; [reflexivity|].
+  rewrite !bfrom_S. rewrite H by lia. f_equal.
+  apply IH. intros J HJ. apply H. lia.
+Qed.
+
+Lemma all_geq_head bs cc (js : list row) :
+  0 < bs -> Forall rok js -> Forall (head_geq bs cc) js ->
+  Forall (Forall (fun e => cc <= fst e / bs)) js.
+Proof.
+  intros Hbs Hs Hh. rewrite Forall_forall in *. intros r Hr.
+  destruct (Hs r Hr) as [Hss _]. specialize (Hh r Hr). destruct r as [|e tl]; [constructor|].
+  simpl in Hh. inversion Hss as [|? ? _ Hall]; subst. constructor; [exact Hh|].
+  eapply Forall_impl; [|exact Hall]. intros x Hx. unfold lec in Hx.
+  pose proof (PwSpec.div_mono bs (fst e) (fst x) Hbs Hx). lia.
+Qed.
+
+(* ---------------- the generalised loop theorem ---------------- *)
+
+Lemma bm_loop_spec bs : 0 < bs -> forall fuel (js : list row) J0 n,
+  PwCopy.total js < fuel -> Forall rok js ->
+  Forall (Forall (fun e => J0 <= fst e / bs < J0 + n)) js ->
+  bm_loop fuel bs js = bfrom bs J0 n js.
+Proof.
+  intro Hbs. induction fuel as [|f IH]; intros js J0 n Ht Hs Hr; [lia|].
+  destruct (bm_min bs js) as [J|] eqn:Ei.
+  - pose proof (min_total_lt bs js J Hbs Ei) as Hdec.
+    rewrite (bm_loop_S f bs js J Ei).
+    apply bm_min_some in Ei. destruct Ei as [Hmin Hex].
+    pose proof (all_geq_head bs J js Hbs Hs Hmin) as HJ.
+    apply Exists_exists in Hex. destruct Hex as (r0 & Hin0 & Hr0).
+    destruct r0 as [|e0 tl0]; [contradiction|]. simpl in Hr0.
+    assert (HJr : J0 <= J < J0 + n).
+    { rewrite Forall_forall in Hr. specialize (Hr _ Hin0).
+      inversion Hr as [|? ? He _]; subst. lia. }
+    rewrite (block_dense_gvals bs J js Hbs Hs HJ).
+    set (js2 := map (dr ((J + 1) * bs)) js) in *.
+    assert (Hsplit : bfrom bs J0 n js =
+                     (J, block_dense bs J js) :: bfrom bs (J + 1) (J0 + n - (J + 1)) js2).
+    { replace n with ((J - J0) + (1 + (J0 + n - (J + 1)))) at 1 by lia.
+      rewrite !bfrom_app.
+      rewrite (bfrom_empty bs (J - J0) js J0).
+      2:{ intros J' HJ'. apply block_has_false.
+          eapply Forall_impl; [|exact HJ]. intros r Hr'.
+          eapply Forall_impl; [|exact Hr']. intros e He. simpl in He. lia. }
+      replace (J0 + (J - J0)) with J by lia.
+      rewrite bfrom_S. unfold bcell at 1.
+      rewrite (block_has_true bs J js (e0 :: tl0) e0 Hin0 (or_introl eq_refl) Hr0). simpl.
+      f_equal. replace (Datatypes.S J) with (J + 1) by lia.
+      apply bfrom_ext. intros J' HJ'. unfold bcell, js2.
+      rewrite (block_has_dr bs J J' js Hbs ltac:(lia)), (block_dense_dr bs J J' js ltac:(lia)).
+      reflexivity. }
+    rewrite Hsplit. f_equal.
+    apply IH.
+    + lia.
+    + unfold js2. rewrite Forall_forall in *. intros r' Hr'.
+      apply in_map_iff in Hr'. destruct Hr' as (r & <- & Hin). apply dr_rok; [exact Hbs|]. apply Hs, Hin.
+    + unfold js2. rewrite Forall_forall in *. intros r' Hr'.
+      apply in_map_iff in Hr'. destruct Hr' as (r & <- & Hin).
+      pose proof (PwSpec.dr_ge bs J _ Hbs (fun c => ce_char bs J c Hbs) r (proj1 (Hs r Hin))) as H1.
+      rewrite Forall_forall in *. intros e He.
+      specialize (H1 e He). pose proof (Hr r Hin) as H2. rewrite Forall_forall in H2.
+      specialize (H2 e (dr_incl _ r e He)). simpl in H2. lia.
+  - rewrite bm_loop_None by exact Ei. apply bm_min_none in Ei.
+    symmetry. apply bfrom_empty. intros J _. apply block_has_false.
+    eapply Forall_impl; [|exact Ei]. intros r ->. constructor.
+Qed.
+
+(* ---------------- B1 ---------------- *)
+
+Theorem bm_block_row_spec bs mp (js : list row) :
+  0 < bs ->
+  Forall (fun r => sorted_strict r = true) js ->
+  Forall (Forall (fun e => fst e / bs < mp)) js ->
+  bm_block_row bs js = block_spec_row bs mp js.
+Proof.
+  intros Hbs Hs Hr. unfold bm_block_row. rewrite block_spec_row_from.
+  apply bm_loop_spec; [exact Hbs|rewrite PwCopy.pw_fuel_total; lia| |].
+  - eapply Forall_impl; [|exact Hs]. intros r. apply sorted_strict_rok.
+  - eapply Forall_impl; [|exact Hr]. intros r H.
+    eapply Forall_impl; [|exact H]. intros e He. simpl in He. lia.
+Qed.
+
+Theorem block_matrix_spec (A : crs) bs :
+  bs <> 0 -> nrows A / bs * bs = nrows A -> ncols A / bs * bs = ncols A ->
+  forallb sorted_strict (rows A) = true -> wf A = true ->
+  block_matrix A bs = Some (block_spec A bs).
+Proof.
+  intros Hbs Hn Hm Hs Hwf. unfold block_matrix, block_spec.
+  replace (Nat.eqb bs 0) with false by (symmetry; apply Nat.eqb_neq; exact Hbs).
+  replace (Nat.eqb (nrows A / bs * bs) (nrows A)) with true by (symmetry; apply Nat.eqb_eq; exact Hn).
+  replace (Nat.eqb (ncols A / bs * bs) (ncols A)) with true by (symmetry; apply Nat.eqb_eq; exact Hm).
+  simpl negb. cbv iota. simpl orb. cbv iota. f_equal. f_equal.
+  apply map_ext_in. intros js Hjs.
+  set (P := fun r : row => sorted_strict r = true /\ Forall (fun e => fst e / bs < ncols A / bs) r).
+  assert (HP : Forall P (rows A)).
+  { pose proof (PwCopy.wf_rows_lt A Hwf) as Hlt. unfold PwCopy.rows_lt in Hlt.
+    rewrite forallb_forall in Hs.
+    rewrite Forall_forall in *. intros r Hr. split; [apply Hs, Hr|].
+    specialize (Hlt r Hr). eapply Forall_impl; [|exact Hlt]. intros e He.
+    unfold PwCopy.ent_lt in He. apply Nat.div_lt_upper_bound; [exact Hbs|]. lia. }
+  pose proof (PwCopy.groups_Forall P (nrows A / bs) bs (rows A) HP) as HG.
+  rewrite Forall_forall in HG. specialize (HG js Hjs).
+  apply bm_block_row_spec; [lia| |].
+  - eapply Forall_impl; [|exact HG]. intros r [H _]. exact H.
+  - eapply Forall_impl; [|exact HG]. intros r [_ H]. exact H.
+Qed.
+
+End BlkRing.
+
+(* ================================================================== *)
+(* Part C: unblock_matrix, round trip                                   *)
+
+Section Unblock.
+Context {S : Scalar}.
+Local Notation row := (row S).
+Local Notation crs := (crs S).
+Local Notation bcrs := (@bcrs S).
+
+(* shape: no hypothesis needed, every block row yields exactly bs scalar rows *)
+Theorem unblock_ncols bs (B : bcrs) : ncols (unblock_matrix bs B) = bncols B * bs.
+Proof. reflexivity. Qed.
+
+Lemma flat_map_const_length {X Y} (f : X -> list Y) n (l : list X) :
+  (forall x, length (f x) = n) -> length (flat_map f l) = length l * n.
+Proof.
+  intro H. induction l as [|x l IH]; simpl; [reflexivity|]. rewrite app_length, H, IH. reflexivity.
+Qed.
+
+Theorem unblock_nrows bs (B : bcrs) : nrows (unblock_matrix bs B) = length (brows B) * bs.
+Proof.
+  unfold nrows, unblock_matrix. simpl. apply flat_map_const_length.
+  intro br. rewrite map_length. apply seq_length.
+Qed.
+
+Lemma nth_flat_map_const {X Y} (f : X -> list Y) n dx dy : (forall x, length (f x) = n) ->
+  forall (l : list X) q k, q < length l -> k < n ->
+  nth (q * n + k) (flat_map f l) dy = nth k (f (nth q l dx)) dy.
+Proof.
+  intro H. induction l as [|x l IH]; intros q k Hq Hk; simpl in Hq; [lia|].
+  destruct q as [|q]; simpl flat_map.
+  - rewrite app_nth1 by (rewrite H; lia). reflexivity.
+  - rewrite app_nth2 by (rewrite H; nia). rewrite H.
+    replace (Datatypes.S q * n + k - n) with (q * n + k) by nia.
+    apply IH; lia.
+Qed.
+
+Lemma nth_map_lt {X Y} (f : X -> Y) (l : list X) k dy dx :
+  k < length l -> nth k (map f l) dy = f (nth k l dx).
+Proof. intro H. rewrite (nth_indep _ dy (f dx)) by (rewrite map_length; exact H). apply map_nth. Qed.
+
+Lemma nth_firstn' {X} (d : X) n : forall (l : list X) k, k < n -> nth k (firstn n l) d = nth k l d.
+Proof.
+  induction n as [|n IH]; intros l k Hk; [lia|].
+  destruct l as [|x l]; [reflexivity|]. destruct k as [|k]; [reflexivity|].
+  simpl. apply IH. lia.
+Qed.
+
+Lemma nth_skipn' {X} (d : X) m : forall (l : list X) k, nth k (skipn m l) d = nth (m + k) l d.
+Proof.
+  induction m as [|m IH]; intros l k; [reflexivity|].
+  destruct l as [|x l]; [destruct k; reflexivity|]. simpl. apply IH.
+Qed.
+
+Lemma skipn_skipn' {X} a : forall b (l : list X), skipn a (skipn b l) = skipn (b + a) l.
+Proof.
+  intros b; induction b as [|b IH]; intro l; [reflexivity|].
+  destruct l as [|x l]; [simpl; destruct a; reflexivity|]. simpl. apply IH.
+Qed.
+
+Lemma nth_groups {X} bs : forall np (l : list X) I, I < np ->
+  nth I (groups np bs l) [] = firstn bs (skipn (I * bs) l).
+Proof.
+  induction np as [|np IH]; intros l I HI; [lia|].
+  destruct I as [|I]; [reflexivity|]. simpl groups. simpl nth.
+  rewrite IH by lia. rewrite skipn_skipn'. reflexivity.
+Qed.
+
+Lemma nth_group_row bs np (l : list row) I k : I < np -> k < bs ->
+  nth k (nth I (groups np bs l) []) [] = nth (I * bs + k) l [].
+Proof.
+  intros HI Hk. rewrite nth_groups by exact HI. rewrite nth_firstn' by exact Hk.
+  apply nth_skipn'.
+Qed.
+
+End Unblock.
+
+Section UnblockRing.
+Context {S : Scalar}.
+Local Notation row := (row S).
+Local Notation crs := (crs S).
+Local Notation bcrs := (@bcrs S).
+Hypothesis Srt : Sring S.
+Add Ring SRingC : Srt.
+
+Lemma rget_flat_map_zero {X} (F : X -> row) (L : list X) j :
+  (forall x, In x L -> rget (F x) j = s0) -> rget (flat_map F L) j = s0.
+Proof.
+  induction L as [|x L IH]; intro H; [apply rget_nil|].
+  simpl. rewrite (rget_app Srt), H by (left; reflexivity).
+  rewrite IH by (intros y Hy; apply H; right; exact Hy). ring.
+Qed.
+
+Lemma rget_tab (f : nat -> S) b n : forall a x, a <= x < a + n ->
+  rget (map (fun l => (b + l, f l)) (seq a n)) (b + x) = f x.
+Proof.
+  induction n as [|n IH]; intros a x Hx; [lia|].
+  simpl. rewrite (rget_cons Srt). simpl fst; simpl snd.
+  destruct (Nat.eqb_spec (b + a) (b + x)) as [E|E].
+  - assert (a = x) by lia. subst x.
+    rewrite (rget_notin Srt); [ring|]. rewrite map_map. simpl. intro Hin.
+    apply in_map_iff in Hin. destruct Hin as (l & Hl & Hin). apply in_seq in Hin. lia.
+  - rewrite IH by lia. ring.
+Qed.
+
+Lemma rget_tab_notin (f : nat -> S) bs J j : 0 < bs -> j / bs <> J ->
+  rget (map (fun l => (J * bs + l, f l)) (seq 0 bs)) j = s0.
+Proof.
+  intros Hbs Hj. apply (rget_notin Srt). rewrite map_map. simpl. intro Hin.
+  apply in_map_iff in Hin. destruct Hin as (l & Hl & Hin). apply in_seq in Hin.
+  apply Hj. subst j. apply blk_div. lia.
+Qed.
+
+Lemma nth_block_dense bs J (js : list row) : forall k l, l < bs ->
+  nth l (nth k (block_dense bs J js) []) s0 = rget (nth k js []) (J * bs + l).
+Proof.
+  induction js as [|r t IH]; intros k l Hl.
+  - destruct k; destruct l; reflexivity.
+  - destruct k as [|k]; [|apply IH; exact Hl]. simpl.
+    rewrite (nth_indep _ s0 (rget r (J * bs + 0))) by (rewrite map_length, seq_length; exact Hl).
+    rewrite (map_nth (fun l => rget r (J * bs + l)) (seq 0 bs) 0 l).
+    rewrite seq_nth by exact Hl. reflexivity.
+Qed.
+
+(* one scalar row of the unblocked specification *)
+Definition cellrow bs (js : list row) k (J : nat) : row :=
+  if block_has bs J js
+  then map (fun l => (J * bs + l, nth l (nth k (block_dense bs J js) []) s0)) (seq 0 bs)
+  else [].
+
+Lemma flat_map_flat_map' {X Y Z} (g : Y -> list Z) (h : X -> list Y) (L : list X) :
+  flat_map g (flat_map h L) = flat_map (fun x => flat_map g (h x)) L.
+Proof.
+  induction L as [|x L IH]; [reflexivity|]. cbn [flat_map]. rewrite flat_map_app, IH. reflexivity.
+Qed.
+
+Lemma unblock_row_spec bs mp (js : list row) k :
+  unblock_row bs k (block_spec_row bs mp js) = flat_map (cellrow bs js k) (seq 0 mp).
+Proof.
+  unfold unblock_row, block_spec_row. rewrite flat_map_flat_map'.
+  apply flat_map_ext. intro J. unfold cellrow.
+  destruct (block_has bs J js); [simpl; apply app_nil_r|reflexivity].
+Qed.
+
+Lemma rget_cellrow_other bs (js : list row) k J j : 0 < bs -> j / bs <> J ->
+  rget (cellrow bs js k J) j = s0.
+Proof.
+  intros Hbs Hj. unfold cellrow. destruct (block_has bs J js); [|apply rget_nil].
+  apply rget_tab_notin; assumption.
+Qed.
+
+Lemma rget_cellrow_same bs (js : list row) k J l : 0 < bs -> l < bs ->
+  rget (cellrow bs js k J) (J * bs + l) = rget (nth k js []) (J * bs + l).
+Proof.
+  intros Hbs Hl. unfold cellrow. destruct (block_has bs J js) eqn:E.
+  - rewrite (rget_tab _ (J * bs) bs 0 l) by lia. apply nth_block_dense. exact Hl.
+  - rewrite rget_nil. symmetry. apply (rget_notin Srt). intro Hin.
+    apply in_map_iff in Hin. destruct Hin as (e & He & Hin).
+    destruct (nth_in_or_default k js []) as [Hr|Hr]; [|rewrite Hr in Hin; contradiction].
+    apply (block_has_false_inv bs J js _ e E Hr Hin). rewrite He. apply blk_div. lia.
+Qed.
+
+Theorem unblock_row_dense bs mp (js : list row) k j : 0 < bs -> j < mp * bs ->
+  rget (unblock_row bs k (block_spec_row bs mp js)) j = rget (nth k js []) j.
+Proof.
+  intros Hbs Hj. rewrite unblock_row_spec.
+  set (J := j / bs). pose proof (div_blk bs j Hbs) as Hd. fold J in Hd.
+  assert (HJ : J < mp) by nia.
+  replace mp with (J + (1 + (mp - J - 1))) by lia.
+  rewrite !seq_app, !flat_map_app, !(rget_app Srt). simpl flat_map. rewrite app_nil_r.
+  rewrite rget_flat_map_zero.
+  2:{ intros J' HJ'. apply in_seq in HJ'. apply rget_cellrow_other; [exact Hbs|fold J; lia]. }
+  rewrite (rget_flat_map_zero _ (seq (0 + J + 1) (mp - J - 1))).
+  2:{ intros J' HJ'. apply in_seq in HJ'. apply rget_cellrow_other; [exact Hbs|fold J; lia]. }
+  replace j with (J * bs + (j - J * bs)) by lia. simpl plus.
+  rewrite rget_cellrow_same by lia. ring.
+Qed.
+
+(* B2: dense round trip through the specification (divisibility only) *)
+Theorem unblock_spec_dense (A : crs) bs i j :
+  bs <> 0 -> nrows A / bs * bs = nrows A -> ncols A / bs * bs = ncols A ->
+  i < nrows A -> j < ncols A ->
+  mget (unblock_matrix bs (block_spec A bs)) i j = mget A i j.
+Proof.
+  intros Hbs Hn Hm Hi Hj. unfold mget.
+  pose proof (div_blk bs i ltac:(lia)) as Hd.
+  set (I := i / bs) in *. set (k := i - I * bs).
+  assert (HI : I < nrows A / bs) by nia.
+  assert (Hk : k < bs) by (unfold k; lia).
+  replace i with (I * bs + k) by (unfold k; lia).
+  unfold unblock_matrix, block_spec. simpl rows.
+  rewrite (nth_flat_map_const (X:=list (nat * @blk S)) (Y:=row) _ bs [] []);
+    [|intro br; rewrite map_length; apply seq_length
+     |rewrite map_length, PwCopy.groups_length; exact HI|exact Hk].
+  rewrite (nth_map_lt (X:=nat) (Y:=row) _ _ k [] 0) by (rewrite seq_length; exact Hk).
+  rewrite seq_nth by exact Hk. simpl plus.
+  rewrite (nth_map_lt (X:=list row) (Y:=list (nat * @blk S)) _ _ I [] []) by (rewrite PwCopy.groups_length; exact HI).
+  rewrite unblock_row_dense by lia.
+  rewrite nth_group_row by assumption. reflexivity.
+Qed.
+
+Theorem unblock_block_dense (A : crs) bs B i j :
+  forallb sorted_strict (rows A) = true -> wf A = true ->
+  block_matrix A bs = Some B -> i < nrows A -> j < ncols A ->
+  mget (unblock_matrix bs B) i j = mget A i j.
+Proof.
+  intros Hs Hwf HB Hi Hj. pose proof (block_matrix_some_inv A bs B HB) as (Hbs & Hn & Hm & _).
+  rewrite (block_matrix_spec Srt A bs Hbs Hn Hm Hs Hwf) in HB. injection HB as <-.
+  apply unblock_spec_dense; assumption.
+Qed.
+
+End UnblockRing.
+
+(* ================================================================== *)
+(* closed instance                                                      *)
+
+Theorem block_matrix_spec_Qc (A : crs QcS) bs :
+  bs <> 0 -> nrows A / bs * bs = nrows A -> ncols A / bs * bs = ncols A ->
+  forallb sorted_strict (rows A) = true -> wf A = true ->
+  block_matrix A bs = Some (block_spec A bs).
+Proof. apply (block_matrix_spec QcS_ring). Qed.
+
+Theorem unblock_block_dense_Qc (A : crs QcS) bs B i j :
+  forallb sorted_strict (rows A) = true -> wf A = true ->
+  block_matrix A bs = Some B -> i < nrows A -> j < ncols A ->
+  mget (unblock_matrix bs B) i j = mget A i j.
+Proof. apply (unblock_block_dense QcS_ring). Qed.
+
+Print Assumptions block_matrix_spec_Qc.
+Print Assumptions unblock_block_dense_Qc.
+Print Assumptions block_matrix_wf.
+Print Assumptions bm_block_row_fuel.
+
+End Blk.
 Local Open Scope S_scope.
 
 (* ------------------------------------------------------------------ *)
